@@ -190,6 +190,11 @@ CONTRACTS.append(Contract(
     descr="SHA256Hasher / SHA512Hasher share this body",
 ))
 
+# multi-block DES formats: every 8-byte block of the password enters the digest (a password differing in any block is another
+# password); the same contracts are listed under C02 (published algorithm)
+from contracts import bigcrypt as _big  # noqa: E402
+
+CONTRACTS += [_big.contract("C01"), _big.bsdi_key_contract("C01")]
 BOUNDED = [Bounded("c01", "harness/c01.py", descr="every registered hasher x password/settings grid x near misses", timeout=900)]
 
 MUTANTS = [
@@ -199,4 +204,6 @@ MUTANTS = [
     ("_wrap_hash keeps one char of the old prefix", H, "        return self.prefix + hash[len(orig_prefix) :]\n", "        return self.prefix + hash[len(orig_prefix) - 1 :]\n", "refute"),
     ("_unwrap_hash does not check the prefix", H, "        if not hash.startswith(prefix):\n            raise exc.InvalidHashError(self)\n        # NOTE: always passing", "        # NOTE: always passing", "refute"),
     ("libpass hash renders with the sha256 info class", L, "        return self._info_cls(\n", "        return SHA256CryptInfo(\n", "refute"),
+    ("bsdi_crypt key folding skips a final one-byte block", "passlib/handlers/des_crypt.py", "    key_value = _crypt_secret_to_key(secret)\n    idx = 8\n    end = len(secret)\n    while idx < end:", "    key_value = _crypt_secret_to_key(secret)\n    idx = 8\n    end = len(secret) - 1\n    while idx < end:", "refute", "_bsdi_secret_to_key"),
+    ("bigcrypt: last segment of one byte dropped", "passlib/handlers/des_crypt.py", "        while idx < end:\n            next = idx + 8\n            chk += _raw_des_crypt(secret[idx:next], chk[-11:-9])", "        while idx < end - 1:\n            next = idx + 8\n            chk += _raw_des_crypt(secret[idx:next], chk[-11:-9])", "refute", "bigcrypt"),
 ]
